@@ -281,6 +281,8 @@ def shape_labels(case):
         labs.append('insertion-order-permuted')
     if case.get('prelude'):
         labs.append('backend-reused-after-other-graph')
+    if case.get('spurious'):
+        labs.append('spurious-wakeups')
     groups = case.get('groups') or ()
     if groups:
         labs.append('group-nodes')
@@ -378,7 +380,8 @@ def execute(case, sched_spec=None, max_steps=20000):
                      passthrough=(vsched.Abort, vsched.HarnessGap))
 
     schedule = make_schedule(sched_spec or case['sched'])
-    ctrl, how, value = vsched.run_controlled(schedule, body, max_steps=max_steps)
+    ctrl, how, value = vsched.run_controlled(schedule, body, max_steps=max_steps,
+                                             spurious=case.get('spurious'))
     rec = Record()
     rec.ctrl, rec.how, rec.value = ctrl, how, value
     rec.tasks, rec.env, rec.starts = tasks, env, run.starts
@@ -473,6 +476,9 @@ def extras(draw, n):
     extra = {}
     if n >= 2 and draw(st.integers(0, 2)) == 0:
         extra['order'] = draw(st.permutations(list(range(n))))
+    if draw(st.integers(0, 7)) == 0:
+        # Condition.wait may return without a notification after that many scheduling points
+        extra['spurious'] = draw(st.sampled_from([2, 5, 15, 40]))
     if draw(st.integers(0, 3)) == 0:
         groups = []
         start = 0
